@@ -18,6 +18,24 @@ class Some:
         return f"Some({self.v!r})"
 
 
+class Wild:
+    """Wildcard observation: an answer the check deliberately does not look at (encoded as the one-code-point string 0x110000,
+    which the Gallina comparison treats as equal to anything)."""
+    __slots__ = ()
+
+    def __eq__(self, other):
+        return isinstance(other, Wild)
+
+    def __hash__(self):
+        return hash("Wild")
+
+    def __repr__(self):
+        return "WILD"
+
+
+WILD = Wild()
+
+
 def _freeze(v):
     if isinstance(v, (list, tuple)):
         return tuple(_freeze(x) for x in v)
@@ -47,6 +65,9 @@ def enc(v, out: list[str]) -> None:
     elif isinstance(v, Some):
         out.append("o")
         enc(v.v, out)
+    elif isinstance(v, Wild):
+        out.append("s1")
+        out.append("1114112")
     else:
         raise TypeError(f"cannot encode {type(v)}")
 
@@ -92,10 +113,14 @@ def plain(v):
         return {"some": plain(v.v)}
     if isinstance(v, (list, tuple)):
         return [plain(x) for x in v]
+    if isinstance(v, Wild):
+        return {"not_observed": True}
     return v
 
 
 def unplain(v):
+    if isinstance(v, dict) and set(v) == {"not_observed"}:
+        return WILD
     if isinstance(v, dict) and set(v) == {"some"}:
         return Some(unplain(v["some"]))
     if isinstance(v, list):
